@@ -165,7 +165,8 @@ class DateTimestampProvider(MorphingProvider):
                 if data is None:
                     raise TypeLoadError(Union[int, float], data)
 
-                return date.fromtimestamp(data)  # noqa: DTZ012
+                # the dumper produces the timestamp of UTC midnight, so the timestamp is read in UTC as well
+                return datetime.fromtimestamp(data, tz=timezone.utc).date()
             except TypeError:
                 raise TypeLoadError(Union[int, float], data)
             except ValueError:
@@ -178,7 +179,7 @@ class DateTimestampProvider(MorphingProvider):
 
         def pydate_timestamp_loader(data):
             try:
-                return date.fromtimestamp(data)  # noqa: DTZ012
+                return datetime.fromtimestamp(data, tz=timezone.utc).date()
             except TypeError:
                 raise TypeLoadError(Union[int, float], data)
             except (OverflowError, OSError):  # OSError is raised when the platform can not convert such time_t
